@@ -102,6 +102,11 @@ func init() {
 			// closer runs after a ping has hit the broken half
 			add("ws-pings-wbroken", 1+b, map[string]int{"ws": 1, "calls": 1, "reconnect": 1, "pings": 1, "wbreak": 1})
 			add("ws-pings-wbroken-sub", 1+b, map[string]int{"ws": 1, "sub": 1, "reconnect": 1, "pings": 1, "wbreak": 1})
+			// a peer that has gone silent without the connection ending (nothing is delivered in
+			// either direction, nothing fails): Close may not wait for anything from it
+			add("ws-silent", 1+b, map[string]int{"ws": 1, "calls": 1, "fault": int(vnet.Blackhole)})
+			add("ws-silent-sub", 1+b, map[string]int{"ws": 1, "sub": 1, "fault": int(vnet.Blackhole)})
+			add("ws-silent-rc", 1+b, map[string]int{"ws": 1, "calls": 1, "reconnect": 1, "fault": int(vnet.Blackhole)})
 			add("http", 1+b, map[string]int{"ws": 0, "calls": 1})
 			add("custom", 1+b, map[string]int{"ws": 0, "custom": 1, "calls": 1})
 			return ps
